@@ -34,6 +34,10 @@ RESP = {
     # symbol: (head, body, peer closes after reply)
     "ok_ka": (HEAD_OK, b"hello", False),
     "ok_close": (HEAD_OK_CLOSE, b"hello", True),
+    "ok_chunked": (b"HTTP/1.1 200 OK\r\nTransfer-Encoding: chunked\r\n\r\n", b"5\r\nhello\r\n0\r\n\r\n", False),
+    # retried status whose back-off fails: unparseable Retry-After / interrupt while sleeping the valid one
+    "s503_ra_bad": (b"HTTP/1.1 503 Unavailable\r\nRetry-After: soon\r\nContent-Length: 3\r\n\r\n", b"bad", False),
+    "s503_ra_boom": (b"HTTP/1.1 503 Unavailable\r\nRetry-After: 1\r\nContent-Length: 3\r\n\r\n", b"bad", False),
     "s503_ka": (b"HTTP/1.1 503 Unavailable\r\nContent-Length: 3\r\n\r\n", b"bad", False),
     "s503_close": (b"HTTP/1.1 503 Unavailable\r\nConnection: close\r\nContent-Length: 3\r\n\r\n", b"bad", True),
     "r302_ka": (b"HTTP/1.1 302 Found\r\nLocation: %LOC%\r\nContent-Length: 0\r\n\r\n", b"", False),
@@ -53,10 +57,11 @@ CONNECT_FAULTS = ("c_refused", "c_timeout", "c_boom")
 SEND_FAULTS = ("s_epipe", "s_reset", "s_oserr", "s_boom")
 RECV_FAULTS = ("r_reset", "r_ssl", "r_boom")          # raised by the socket at the first receive
 BODY_FAULTS = ("b_boom", "b_reset")                   # raised by the socket at the first body receive
-INTERRUPTS = ("n_boom", "c_boom", "s_boom", "r_boom", "b_boom")
+SLEEP_FAULTS = ("s503_ra_boom",)                      # raised by time.sleep as seen by urllib3.util.retry
+INTERRUPTS = ("n_boom", "c_boom", "s_boom", "r_boom", "b_boom", "s503_ra_boom")
 ALL_SYMBOLS = sorted(set(RESP) | set(NEW_FAULTS) | set(CONNECT_FAULTS) | set(SEND_FAULTS) | set(RECV_FAULTS)
                      | {"r_timeout", "r_eof", "r_garbage", "x_stale"})
-DISPOSALS = ("read", "read2rel", "release", "drain", "close", "stream")
+DISPOSALS = ("read", "read2rel", "release", "drain", "close", "stream", "read1all", "read1n", "read1cl")
 
 
 class Interrupt(KeyboardInterrupt):
@@ -80,6 +85,7 @@ def make_fault(sym):
         "r_boom": lambda: Interrupt("recv"),
         "b_boom": lambda: Interrupt("body"),
         "b_reset": lambda: ConnectionResetError(errno.ECONNRESET, "Connection reset by peer"),
+        "s503_ra_boom": lambda: Interrupt("sleep"),
     }[sym]()
 
 
@@ -91,8 +97,10 @@ class Plan:
 
     def __init__(self, sym, ordinal):
         self.sym, self.ordinal = sym, ordinal
-        self.exc = make_fault(sym) if sym in NEW_FAULTS + CONNECT_FAULTS + SEND_FAULTS + RECV_FAULTS + BODY_FAULTS else None
+        self.exc = make_fault(sym) if sym in (NEW_FAULTS + CONNECT_FAULTS + SEND_FAULTS + RECV_FAULTS + BODY_FAULTS
+                                              + SLEEP_FAULTS) else None
         self.used_send = False
+        self.slept = False
         if self.exc is not None:
             _made.append(self.exc)
 
@@ -130,6 +138,20 @@ class PSocket(vnet.VSocket):
         return super()._fault(kind, k)
 
 
+class _RetryTime:
+    """Stand-in for the `time` module inside urllib3.util.retry: only sleep() differs."""
+
+    def __init__(self, pnet):
+        self._pnet = pnet
+
+    def sleep(self, dt):
+        self._pnet.sleep(dt)
+
+    def __getattr__(self, name):
+        import time
+        return getattr(time, name)
+
+
 class PNet(vnet.Net):
     """Net with PSocket clients, per-attempt plans and a single ordered log shared with the recorder."""
 
@@ -139,6 +161,26 @@ class PNet(vnet.Net):
         self.loc = loc             # Location value for 302 replies
         self.injected = []         # BaseException objects raised into urllib3 since the last mark
         self.explicit_closed = set()
+
+    def __enter__(self):
+        super().__enter__()
+        import urllib3.util.retry as ur
+        self._ur, self._ur_time = ur, ur.time
+        ur.time = _RetryTime(self)       # time.sleep as seen by urllib3.util.retry is virtual (and scriptable)
+        return self
+
+    def __exit__(self, *a):
+        self._ur.time = self._ur_time
+        return super().__exit__(*a)
+
+    def sleep(self, dt):
+        p = self.cur
+        self.log.append(("SLEEP", dt))
+        if p is not None and p.sym in SLEEP_FAULTS and not p.slept:
+            p.slept = True
+            self.inject(p.exc)
+            raise p.exc
+        self.clock_advance(dt)
 
     def inject(self, exc):
         if not isinstance(exc, Exception):
@@ -332,8 +374,33 @@ def _dispose(r, how):
     elif how == "stream":
         for _ in r.stream(2, decode_content=True):
             pass
+    elif how == "read1all":
+        while r.read1():
+            pass
+    elif how == "read1n":
+        while r.read1(2):
+            pass
+    elif how == "read1cl":
+        # stop as soon as the announced Content-Length has been received (no final empty read); without one
+        # (chunked) the caller can only go on until b""
+        cl = r.headers.get("Content-Length")
+        want, got = (int(cl) if cl is not None else None), 0
+        while True:
+            d = r.read1(2)
+            got += len(d)
+            if not d or (want is not None and got >= want):
+                break
     else:
         raise ValueError(how)
+
+
+def _idle(pool, rec, log, resps, will):
+    """No response that the caller is still going to dispose of is outstanding: snapshot the queue.  Taken while the
+    caller still holds whatever the last step gave it (an exception with its traceback, disposed responses)."""
+    if any(i in will for i in resps):
+        return
+    items = list(pool.pool.queue)
+    log.append(("IDLE", [rec.ident(c) for c in items], [rec.sock_of(c) for c in items]))
 
 
 def run_scenario(sc):
@@ -352,6 +419,7 @@ def run_scenario(sc):
         log.append(("CREATED",))
         resps = {}
         done = []      # disposed responses stay referenced by the caller until quiescence
+        will = {st["id"] for st in sc["steps"] if st["op"] == "disp"}
         for st in sc["steps"]:
             op = st["op"]
             if op == "req":
@@ -375,6 +443,7 @@ def run_scenario(sc):
                     log.append(("REQEND", st["id"], "raised", cls, type(ex).__name__))
                     obs["reqs"].append({"id": st["id"], "out": type(ex).__name__ if cls != "interrupt" else "Interrupt",
                                         "atts": rec.att_pos, "dials": len(pnet.dials) - d0})
+                    _idle(pool, rec, log, resps, will)       # judged while the exception is still held
                     ex = None
                 else:
                     resps[st["id"]] = r
@@ -382,6 +451,7 @@ def run_scenario(sc):
                     obs["reqs"].append({"id": st["id"], "out": str(r.status), "atts": rec.att_pos,
                                         "dials": len(pnet.dials) - d0})
                     r = None
+                    _idle(pool, rec, log, resps, will)
                 rec.atts = None
                 pnet.cur = None
                 _cut()
@@ -401,10 +471,12 @@ def run_scenario(sc):
                     log.append(("DISPEND", st["id"], "raised", cls, type(ex).__name__))
                     obs["disps"].append({"id": st["id"], "how": st["how"],
                                          "out": type(ex).__name__ if cls != "interrupt" else "Interrupt"})
+                    _idle(pool, rec, log, resps, will)
                     ex = None
                 else:
                     log.append(("DISPEND", st["id"], "response", "none", "ok"))
                     obs["disps"].append({"id": st["id"], "how": st["how"], "out": "ok"})
+                    _idle(pool, rec, log, resps, will)
                 done.append(r)
                 r = None
                 _cut()
@@ -513,6 +585,8 @@ def encode(log):
             out.append(EV("DispEnd", req=e[1], res=e[2], cls=e[3], how=e[4]))
         elif k == "CUT":
             out.append(EV("Cut", sock=e[1]))
+        elif k == "IDLE":
+            out.append(EV("Idle", q=e[1], qs=e[2]))
         elif k == "QUIESCE":
             out.append(EV("Quiesce", q=e[1], qs=e[2], open_=e[3]))
         elif k == "PROBESTART":
